@@ -221,7 +221,7 @@ class MySQLLoadQueryBuilder:
         return "LOAD DATA LOCAL INFILE '{}'".format(self._load_file)
 
     def _into_table_sql(self, **kwargs: Any) -> str:
-        return " INTO TABLE `{}`".format(self._into_table.get_sql(**kwargs))
+        return " INTO TABLE {}".format(self._into_table.get_sql(**dict(kwargs, quote_char="`")))
 
     def _options_sql(self, **kwargs: Any) -> str:
         return " FIELDS TERMINATED BY ','"
@@ -351,7 +351,7 @@ class VerticaCopyQueryBuilder:
         return querystring
 
     def _copy_table_sql(self, **kwargs: Any) -> str:
-        return 'COPY "{}"'.format(self._copy_table.get_sql(**kwargs))
+        return 'COPY {}'.format(self._copy_table.get_sql(**dict(kwargs, quote_char='"')))
 
     def _from_file_sql(self, **kwargs: Any) -> str:
         return " FROM LOCAL '{}'".format(self._from_file)
